@@ -84,14 +84,29 @@ def gen_config(ctx):
     pmax = 4 if dim == 1 else (3 if dim == 2 else 2)
     degs = [c.intrange(1, pmax) for _ in range(dim)]
     ncoarse = [c.intrange(2, 5 if dim == 1 else (4 if dim == 2 else 2)) for _ in range(dim)]
-    knotkind = c.weighted([('uniform', 6), ('nonuniform', 2), ('repeated', 1)])
+    knotkind = c.weighted([('uniform', 6), ('nonuniform', 2), ('repeated', 1), ('mixed', 3)])
+    if knotkind == 'mixed' and dim >= 2:
+        # anisotropic knots; in half of these runs all axes share degree and size, so that only the knot
+        # positions distinguish the directions
+        if c.choice(2):
+            degs = [degs[0]] * dim
+            ncoarse = [ncoarse[0]] * dim
+        kinds = [c.pick(['uniform', 'nonuniform', 'graded', 'repeated']) for _ in range(dim)]
+        if len(set(kinds)) == 1:
+            kinds[-1] = 'graded' if kinds[0] != 'graded' else 'uniform'
+    else:
+        if knotkind == 'mixed':
+            knotkind = 'nonuniform'
+        kinds = [knotkind] * dim
     knots0 = []
     for d in range(dim):
         br = np.linspace(0.0, 1.0, ncoarse[d] + 1)
-        if knotkind == 'nonuniform':
+        if kinds[d] == 'nonuniform':
             br = br ** 1.5
+        elif kinds[d] == 'graded':
+            br = 1.0 - (1.0 - br) ** 2
         t = [0.0] * (degs[d] + 1) + list(br[1:-1]) + [1.0] * (degs[d] + 1)
-        if knotkind == 'repeated' and degs[d] >= 2 and ncoarse[d] >= 2:
+        if kinds[d] == 'repeated' and degs[d] >= 2 and ncoarse[d] >= 2:
             t.append(br[1])     # one double interior knot
         knots0.append(np.array(sorted(t)))
     truncate = bool(c.choice(2))
@@ -595,6 +610,7 @@ def run_case(ctx):
     ctx.state = (cfg['dim'], tuple(cfg['degs']), tuple(cfg['ncoarse']), cfg['knotkind'], m.state_key())
     ctx.nontrivial = bool(w.nrefine >= 2 and (w.query_between or w.multilevel))
     ctx.sim_time = float(len(ctx.trace) - 1)
+    ctx.interleaving = [t[0] if isinstance(t, list) else 'cfg' for t in ctx.trace]      # order of refinements/queries/copies
     if w.query_between:
         ctx.count('runs.query.between.refinements')
     # originals must be untouched by what happened to their copies
